@@ -39,6 +39,11 @@ func vpNondetRows(n int, prefix string) []vpRowSpec {
 		if nondetBool() {
 			r.part = "q"
 		}
+		r.uKind = 2 // the first configured minmax key "u": a number; for the first row also absent or non-numeric
+		if i == 0 {
+			r.uKind = nondetChoice(3)
+		}
+		r.uVal = 100 + i
 		if nondetBool() {
 			r.hasV = true
 			switch nondetChoice(3) {
@@ -67,7 +72,7 @@ func vpCheckBlocksAgainstRows(iw *vpImgWorld, id int, want []vpRowSpec, builds [
 		blk := &md.DataBlocks[i]
 		got := iw.readBlockRows(id, blk)
 		all = append(all, got...)
-		anyV := false
+		anyV, anyU := false, false
 		for _, text := range got {
 			found := false
 			for _, r := range want {
@@ -79,12 +84,19 @@ func vpCheckBlocksAgainstRows(iw *vpImgWorld, id int, want []vpRowSpec, builds [
 						idx, ok := blk.MinMaxIndexes["v"]
 						vpAssert(ok && idx.Min <= int64(r.v) && int64(r.v) <= idx.Max, "C04/C18: a block's minmax index does not cover a value one of its rows holds")
 					}
+					if r.uKind == 2 {
+						anyU = true
+						idx, ok := blk.MinMaxIndexes["u"]
+						vpAssert(ok && idx.Min <= int64(r.uVal) && int64(r.uVal) <= idx.Max, "C04/C18: a block's minmax index does not cover a value one of its rows holds")
+					}
 				}
 			}
 			vpAssert(found, "C11/C17: a block holds a row that was never ingested")
 		}
 		_, hasIdx := blk.MinMaxIndexes["v"]
 		vpAssert(hasIdx == anyV, "C18: a block carries a minmax index for a key none of its rows supplied (or lacks one)")
+		_, hasU := blk.MinMaxIndexes["u"]
+		vpAssert(hasU == anyU, "C18: a block carries a minmax index for a key none of its rows supplied with a number (or lacks one)")
 		// a block copied verbatim by a merge keeps its source's filters: nothing is built for it
 		copied := false
 		for _, src := range sourceBlocks {
@@ -165,7 +177,7 @@ func vpFlushedFileBody() {
 //vp:override bs.encodeFilterSection=vpEncodeSectionStub
 //vp:override bs.parseFilterSection=vpParseSectionOK
 //vp:maxsteps 400000
-//vp:bounds two flushed files of 1..2 and 1 (thorough 1..2) rows (partitions p/q, minmax key present or not, so blocks merge, or are copied because partition or key set differ or the row-group row limit (1000 or 2) forbids it), then the real Merge; CompressionNone
+//vp:bounds two flushed files of 1..2 and 1 (thorough 1..2) rows (partitions p/q, minmax key present or not, so blocks merge, or are copied because partition or key set differ or the row-group row limit (1000 or 2) forbids it), then the real Merge, with the configured false positive rate unchanged or changed in between; CompressionNone
 func H_C11_merge_preserves_rows_and_describes_its_output() { vpMergedFileBody() }
 
 func vpMergedFileBody() {
@@ -176,6 +188,11 @@ func vpMergedFileBody() {
 	idb := iw.flushRows(rb)
 	if nondetBool() {
 		iw.b.config.MaxRowGroupRows = 2
+	}
+	if nondetBool() {
+		// the engine was reconfigured between the flushes and the merge: rebuilt filters use the
+		// rate configured now, whatever the source blocks recorded
+		iw.b.config.BloomFalsePositiveRate = 0.001
 	}
 	var sourceBlocks [][]string
 	for _, id := range []int{ida, idb} {
@@ -224,7 +241,7 @@ func H_C18_flush_indexes_cover_the_rows_written() { vpFlushedFileBody() }
 //vp:override bs.encodeFilterSection=vpEncodeSectionStub
 //vp:override bs.parseFilterSection=vpParseSectionOK
 //vp:maxsteps 400000
-//vp:bounds two flushed files of 1..2 and 1 (thorough 1..2) rows (partitions p/q, minmax key present or not, so blocks merge, or are copied because partition or key set differ or the row-group row limit (1000 or 2) forbids it), then the real Merge; CompressionNone
+//vp:bounds two flushed files of 1..2 and 1 (thorough 1..2) rows (partitions p/q, minmax key present or not, so blocks merge, or are copied because partition or key set differ or the row-group row limit (1000 or 2) forbids it), then the real Merge, with the configured false positive rate unchanged or changed in between; CompressionNone
 func H_C18_merge_indexes_cover_the_rows_written() { vpMergedFileBody() }
 
 //vp:override (*bs.bloomEntrySets).indexRow=vpIndexRowRec
@@ -240,7 +257,7 @@ func H_C26_flush_builds_filters_from_the_sets_it_fills() { vpFlushedFileBody() }
 //vp:override bs.encodeFilterSection=vpEncodeSectionStub
 //vp:override bs.parseFilterSection=vpParseSectionOK
 //vp:maxsteps 400000
-//vp:bounds two flushed files of 1..2 and 1 (thorough 1..2) rows (partitions p/q, minmax key present or not, so blocks merge, or are copied because partition or key set differ or the row-group row limit (1000 or 2) forbids it), then the real Merge; CompressionNone
+//vp:bounds two flushed files of 1..2 and 1 (thorough 1..2) rows (partitions p/q, minmax key present or not, so blocks merge, or are copied because partition or key set differ or the row-group row limit (1000 or 2) forbids it), then the real Merge, with the configured false positive rate unchanged or changed in between; CompressionNone
 func H_C26_merge_builds_filters_from_the_sets_it_fills() { vpMergedFileBody() }
 
 //vp:override (*bs.bloomEntrySets).indexRow=vpIndexRowRec
@@ -248,7 +265,7 @@ func H_C26_merge_builds_filters_from_the_sets_it_fills() { vpMergedFileBody() }
 //vp:override bs.encodeFilterSection=vpEncodeSectionStub
 //vp:override bs.parseFilterSection=vpParseSectionOK
 //vp:maxsteps 400000
-//vp:bounds two flushed files of 1..2 and 1 (thorough 1..2) rows (partitions p/q, minmax key present or not, so blocks merge, or are copied because partition or key set differ or the row-group row limit (1000 or 2) forbids it), then the real Merge; CompressionNone
+//vp:bounds two flushed files of 1..2 and 1 (thorough 1..2) rows (partitions p/q, minmax key present or not, so blocks merge, or are copied because partition or key set differ or the row-group row limit (1000 or 2) forbids it), then the real Merge, with the configured false positive rate unchanged or changed in between; CompressionNone
 func H_C17_merged_file_describes_itself() { vpMergedFileBody() }
 
 // The block grouping inside one partition is a partition of the source blocks: nothing dropped,
